@@ -135,7 +135,7 @@ func (p *proc) define(t *Term, sb *strings.Builder) {
 		if x.IsVar() {
 			fmt.Fprintf(sb, "(declare-const |%s| %s)\n", x.Name, x.S)
 		} else {
-			fmt.Fprintf(sb, "(define-fun t%d () %s %s)\n", x.ID, x.S, Body(x))
+			fmt.Fprintf(sb, "(define-fun $t%d () %s %s)\n", x.ID, x.S, Body(x))
 		}
 		p.emitted[x.ID] = true
 		st = st[:len(st)-1]
